@@ -134,16 +134,15 @@ func workerMain(shard, n int, only string) *wres {
 		for _, state := range []string{"S0", "S1"} {
 			var mine []item
 			for i := range shapes {
-				for _, cons := range []bool{false, true} {
-					if cons && d.noCons {
-						continue
-					}
-					if global%n == shard {
-						mine = append(mine, item{i, cons})
-					}
-					global++
+				if (i+global)%n != shard {
+					continue
+				}
+				mine = append(mine, item{i, false})
+				if !d.noCons {
+					mine = append(mine, item{i, true})
 				}
 			}
+			global += 5
 			i := 0
 			single, singleUntil := false, 0 // after a goroutine panic the chunk is re-run one call per execution
 			for i < len(mine) {
@@ -198,8 +197,12 @@ func workerMain(shard, n int, only string) *wres {
 							if passed {
 								key += "/behind-signature-check"
 							}
+							note := ""
+							if l := tokOf(d, sh, "Gossipers"); (l == "[nil]" || l == "[g,nil]") && strings.HasSuffix(pan.frame, "verifyGossipers") && pan.class == "nil-pointer" {
+								note = " (a nil list element: reachable for in-process callers only - protobuf decoding never yields nil elements of a repeated field)"
+							}
 							tmp.addViol(&vrec{Key: key, Predicate: "C15.no-panic", Dev: sh.dev, Idx: it.sh, Count: 1,
-								What:    fmt.Sprintf("%s panicked (%s) in %s on a %s request; signature check passed before: %v", d.name, pan.value, pan.frame, variant, passed),
+								What:    fmt.Sprintf("%s panicked (%s) in %s on a %s request; signature check passed before: %v%s", d.name, pan.value, pan.frame, variant, passed, note),
 								Witness: witnessOf(d, state, sh, variant, map[string]any{"panic": pan.value, "frames": pan.frames, "signature_check_passed": passed})})
 							tmp.sample(d, state, sh, variant, "PANIC "+pan.class+" in "+pan.frame)
 							// A panic in front of the authentication guard (conversion of a request field, no lock held,
@@ -353,6 +356,13 @@ func workerMain(shard, n int, only string) *wres {
 	return res
 }
 
+func tokOf(d *rpcDef, sh shape, name string) string {
+	if i, ok := d.sch.idx[name]; ok {
+		return sh.tok[i]
+	}
+	return ""
+}
+
 func parkedAllVerify(s snap) bool {
 	for i := range s.parkedV {
 		v := s.parkedV[i].Vertex
@@ -367,11 +377,13 @@ var _ = accountant.ErrUnexpected
 
 // sample keeps one explored case per (rpc, outcome class).
 func (r *wres) sample(d *rpcDef, state string, sh shape, variant, outcome string) {
-	cls := outcome
-	if i := strings.Index(cls, ":"); i > 0 {
-		cls = cls[:i]
+	cls := "ok"
+	for _, c := range []string{"PANIC", "error", "accepted", "refused"} {
+		if strings.HasPrefix(outcome, c) {
+			cls = c
+		}
 	}
-	k := d.name + "|" + strings.SplitN(cls, " ", 2)[0]
+	k := d.name + "|" + cls
 	for _, s := range r.Samples {
 		if s["_k"] == k {
 			return
@@ -393,51 +405,46 @@ func (r *wres) keepSample(s map[string]any) {
 
 // ---------------------------------------------------------------- master
 
-type lineFilter struct {
-	mu  sync.Mutex
-	buf []byte
-}
-
-func (f *lineFilter) Write(p []byte) (int, error) {
-	f.mu.Lock()
-	defer f.mu.Unlock()
-	f.buf = append(f.buf, p...)
-	for {
-		i := bytes.IndexByte(f.buf, '\n')
-		if i < 0 {
-			break
-		}
-		line := string(f.buf[:i+1])
-		f.buf = f.buf[i+1:]
-		if strings.HasPrefix(line, "badger ") {
-			continue
-		}
-		os.Stderr.WriteString(line)
-	}
-	return len(p), nil
-}
-
-func runWorker(self string, args []string, capture *bytes.Buffer) (*wres, error) {
+// runWorker runs one worker process and returns the result lines it printed (controlled part, updateDag part).
+func runWorker(self string, args []string, want int) []*wres {
 	cmd := exec.Command(self, args...)
 	cmd.Env = append(os.Environ(), "GOMAXPROCS=1")
-	if capture != nil {
-		cmd.Env = append(os.Environ(), "GOMAXPROCS=2")
-		cmd.Stderr = capture
-	} else {
-		cmd.Stderr = &lineFilter{}
-	}
+	var stderr bytes.Buffer
+	cmd.Stderr = &stderr
 	var out bytes.Buffer
 	cmd.Stdout = &out
 	runErr := cmd.Run()
+	var rs []*wres
 	for _, line := range bytes.Split(out.Bytes(), []byte{'\n'}) {
 		if len(line) > 0 && line[0] == '{' {
 			var x wres
 			if json.Unmarshal(line, &x) == nil {
-				return &x, nil
+				rs = append(rs, &x)
 			}
 		}
 	}
-	return nil, fmt.Errorf("no result (%v)", runErr)
+	var keep []string
+	for _, l := range strings.Split(stderr.String(), "\n") {
+		if l != "" && !strings.HasPrefix(l, "badger ") {
+			keep = append(keep, l)
+		}
+	}
+	errText := strings.Join(keep, "\n")
+	switch {
+	case len(rs) == 0 || rs[len(rs)-1].Err != "":
+		if len(rs) == 0 {
+			rs = append(rs, &wres{Err: fmt.Sprintf("no result (%v): %s", runErr, tail(errText, 3000))})
+		}
+	case len(rs) < want:
+		// the controlled part finished, the process died in the pass-through part: an uncontrolled goroutine of the
+		// sync path panicked - that is a finding, not a harness error
+		rs = append(rs, crashResult(errText, runErr))
+	default:
+		if errText != "" {
+			os.Stderr.WriteString(tail(errText, 2000) + "\n")
+		}
+	}
+	return rs
 }
 
 func main() {
@@ -453,15 +460,20 @@ func main() {
 		if len(args) > 3 {
 			only = args[3]
 		}
-		r := workerMain(shard, n, only)
-		b, _ := json.Marshal(r)
-		os.Stdout.Write(append(b, '\n'))
-		return
-	}
-	if len(args) >= 1 && args[0] == "bufconn" {
-		r := bufconnMain()
-		b, _ := json.Marshal(r)
-		os.Stdout.Write(append(b, '\n'))
+		if only != updName {
+			r := workerMain(shard, n, only)
+			b, _ := json.Marshal(r)
+			os.Stdout.Write(append(b, '\n'))
+			if r.Err != "" {
+				return
+			}
+		}
+		if only == "" || only == updName {
+			// client path updateDag: real gRPC over bufconn, outside the controlled runtime, after all controlled executions
+			r := bufconnMain(shard, n)
+			b, _ := json.Marshal(r)
+			os.Stdout.Write(append(b, '\n'))
+		}
 		return
 	}
 	fs := flag.NewFlagSet("C15", flag.ExitOnError)
@@ -478,7 +490,8 @@ func main() {
 		fmt.Fprintln(os.Stderr, "C15:", err)
 		os.Exit(2)
 	}
-	results := make([]*wres, *procs+1)
+	var results []*wres
+	var mu sync.Mutex
 	var wg sync.WaitGroup
 	for s := 0; s < *procs; s++ {
 		s := s
@@ -486,32 +499,19 @@ func main() {
 		go func() {
 			defer wg.Done()
 			wa := []string{"C15", "worker", strconv.Itoa(s), strconv.Itoa(*procs)}
+			want := 2
 			if *only != "" {
 				wa = append(wa, *only)
+				want = 1
 			}
-			r, err := runWorker(self, wa, nil)
-			if err != nil {
-				r = &wres{Shard: s, Err: fmt.Sprintf("worker %d: %v", s, err)}
+			rs := runWorker(self, wa, want)
+			mu.Lock()
+			defer mu.Unlock()
+			for _, r := range rs {
+				r.Shard = s
+				results = append(results, r)
 			}
-			results[s] = r
 		}()
-	}
-	bufNote := ""
-	if *only == "" || *only == "Gossip.updateDag" {
-		wg.Add(1)
-		go func() {
-			defer wg.Done()
-			var stderr bytes.Buffer
-			r, err := runWorker(self, []string{"C15", "bufconn"}, &stderr)
-			if err != nil {
-				// the worker died: an uncontrolled goroutine of the sync path panicked - that is a finding, not a harness error
-				r = crashResult(stderr.String(), err)
-			}
-			r.Shard = *procs
-			results[*procs] = r
-		}()
-	} else {
-		results[*procs] = &wres{Shard: *procs, Stats: map[string]*rpcStat{}, Viol: map[string]*vrec{}}
 	}
 	wg.Wait()
 
@@ -521,6 +521,7 @@ func main() {
 	merged := &wres{Viol: viol}
 	runs, rebuilds, flash := 0, 0, 0
 	var maxWall float64
+	wallBy := map[int]float64{}
 	for _, r := range results {
 		if r.Err != "" {
 			fmt.Fprintf(os.Stderr, "C15: worker %d: %s\n", r.Shard, r.Err)
@@ -530,8 +531,9 @@ func main() {
 		runs += r.Runs
 		rebuilds += r.Rebuilds
 		flash += r.FlashSeen
-		if r.WallS > maxWall {
-			maxWall = r.WallS
+		wallBy[r.Shard] += r.WallS
+		if wallBy[r.Shard] > maxWall {
+			maxWall = wallBy[r.Shard]
 		}
 		for k, s := range r.Stats {
 			o := stats[k]
@@ -602,23 +604,23 @@ func main() {
 			"past_first_guard": s.Nontrivial, "reached_signature_check": s.ReachedVerifier, "accepted_with_state_change": s.Accepted, "consistent_variant_identical_to_raw": s.SameAsRaw, "enumeration": s.Rule}
 		rules = append(rules, k+": "+s.Rule)
 	}
-	// samples: prefer variety (panic, error, ok, accepted)
-	sort.Slice(merged.Samples, func(a, b int) bool { return merged.Samples[a]["_k"].(string) < merged.Samples[b]["_k"].(string) })
-	for _, want := range []string{"PANIC", "error", "accepted", "ok", "refused"} {
-		for _, s := range merged.Samples {
-			if strings.HasSuffix(s["_k"].(string), "|"+want) && rep.SampleCount() < 8 {
-				c := map[string]any{}
-				for k, v := range s {
-					if k != "_k" {
-						c[k] = v
+	// samples: variety of outcomes over the more interesting entry points
+	pref := []string{"Gossip.GossipVrx", "Notary.Propose", "Notary.Saved", "Gossip.updateDag", "Notary.Confirm", "Gossip.GossipTrx", "Gossip.processLackingParent", "Gossip.Announce", "Webhooks.Webhooks", "Notary.Reject"}
+	used := map[string]bool{}
+	for _, cls := range []string{"PANIC", "accepted", "error", "ok", "refused"} {
+		n := 0
+		for _, name := range append(pref, names...) {
+			for _, s := range merged.Samples {
+				if s["_k"] == name+"|"+cls && !used[name] && n < 2 && rep.SampleCount() < 8 {
+					used[name] = true
+					n++
+					c := map[string]any{}
+					for k, v := range s {
+						if k != "_k" {
+							c[k] = v
+						}
 					}
-				}
-				rep.Sample(c)
-				if want != "PANIC" && want != "error" {
-					break
-				}
-				if rep.SampleCount()%2 == 0 {
-					break
+					rep.Sample(c)
 				}
 			}
 		}
@@ -633,22 +635,19 @@ func main() {
 	rep.Set("exhaustive", exhaustive)
 	rep.Set("per_rpc", perRPC)
 	rep.Set("entry_points", len(names))
-	rep.Set("world_states", []string{"S0: genesis only, no peer", "S1: genesis + 2 sealed transfers (R->A 6, R->B 3) + awaiting contract A->B proposed through Notary.Propose + peer N1 wired and in sync"})
+	rep.Set("world_states", []string{"S0: genesis only, no peer", "S1: genesis + 2 sealed transfers (R->A 6, R->B 3) + two awaiting contracts A->B proposed through Notary.Propose (one of them also moves 2^64-1 units, which A cannot afford) + peer N1 wired and in sync"})
 	rep.Set("controlled_executions", runs)
 	rep.Set("world_rebuilds_after_panic_or_state_change", rebuilds)
 	rep.Set("flashback_entries_recorded_exempt", flash)
 	rep.Set("workers", *procs)
 	rep.Set("worker_wall_s_max", maxWall)
-	if bufNote != "" {
-		rep.Set("bufconn_note", bufNote)
-	}
 	tierNote := "quick: a schema whose full product has more than 200 000 members is covered by the valid base + every single-field sweep + every pair of fields over the full alphabets + the listed blocks (a block is the full product over the named fields with the named alphabets - red3 = {nil,31 bytes,exact} for bytes, {empty,valid,valid-checksum-31-byte-key} for addresses, all values otherwise - with all other fields valid)"
 	if thorough {
 		tierNote = "thorough: limit 400 000 for the plain full product; larger schemas use base + singles + all pairs + the listed blocks, which add the full 8-length product over all bytes/address/sub-message fields of a transaction and over the own fields of a vertex"
 	}
-	rep.Set("rule", "PRODUCT driver, complete and deterministic (no sampling). Per entry point a message schema = fields with alphabets: bytes {nil, empty, 1, 31, 32, 33, 64, 65 bytes} (+ the identity challenge for Waiting/TransactionsInDAG, + the address bytes for Balance); sub-messages (Transaction.Spice, Vertex.Transaction, VrxMsgGossip.Vertex, TrxMsgGossip.Trx, the peer's answer) {nil, present}; gossiper list {absent, [nil], [g], [g,nil], [correct N1 entry, g]} with g.Address in {empty, valid, garbage, valid-checksum-31-byte-key, the node's own address}; addresses {empty, valid cast address, garbage, valid checksum over a 31-byte key}; Subject/Url {empty, normal}; integers {0, 1 (or the valid value), 2^64-1}. "+
+	rep.Set("rule", "PRODUCT driver, complete and deterministic (no sampling). Per entry point a message schema = fields with alphabets: bytes {nil, empty, 1, 31, 32, 33, 64, 65 bytes} (+ the identity challenge for Waiting/TransactionsInDAG, + the address bytes for Balance, + the hash of the unaffordable awaiting contract for Reject); sub-messages (Transaction.Spice, Vertex.Transaction, VrxMsgGossip.Vertex, TrxMsgGossip.Trx, the peer's answer) {nil, present}; gossiper list {absent, [nil], [g], [g,nil], [correct N1 entry, g]} with g.Address in {empty, valid, garbage, valid-checksum-31-byte-key, the node's own address}; addresses {empty, valid cast address, garbage, valid checksum over a 31-byte key}; Subject/Url {empty, normal}; integers {0, 1 (or the valid value), 2^64-1}. "+
 		"Every token vector is built RAW (filler bytes) and CONSISTENTLY SIGNED (same lengths; digests are real sha256 digests cut/extended to the length, signatures real ed25519 signatures of the cast wallets cut/extended, Data/parents are hashes of existing objects cut/extended; an absent Spice is signed as 0/0); a consistent variant equal to its raw variant is not offered twice. Each message is handed once to the real handler in S0 and in S1 inside a controlled execution (deterministic schedule, spawned goroutines run to quiescence after the call; the flashback memory is emptied before every call so that calls are independent). "+
-		tierNote+". evaluations = handler calls (requests, and for the two client-side paths answers of a malicious peer). distinct_nontrivial = number of distinct (entry point, state, message) for which at least one signature check requested by the service passed during the call or the handler answered without error - i.e. the request got past the handler's authentication guard. Enumeration per entry point: "+strings.Join(rules, "; "))
+		tierNote+". evaluations = handler calls (requests, and for the two client-side paths answers of a malicious peer). distinct_nontrivial = number of distinct (entry point, state, message) for which at least one signature check requested by the service passed during the call or the handler answered without error - i.e. the request got past the handler's authentication guard (for the two client-side paths, which have no authentication guard of their own: the peer's vertex survived the wire-to-domain conversion and was handed to the ledger). Enumeration per entry point: "+strings.Join(rules, "; "))
 	rep.Assume("the instrumented copy built by bin/check differs from the repository only in scheduling hooks; every violation key is re-executed on the un-instrumented packages during triage")
 	rep.Assume("requests are non-nil messages (gRPC never hands a nil request to a handler); field contents other than length/presence/validity classes (e.g. particular byte values) are not varied")
 	rep.Assume("flashback memory (duplicate suppression / throttling) is exempt from the unchanged-state oracle: HasHash/HasAddress record the key by design; Notary.Data stores a challenge by design; a correctly signed vertex with unknown parents is parked by design")
